@@ -11,7 +11,7 @@ ASSUMPTIONS = ['worlds are enumerated: bases of <= 6 atoms (incl. query atoms ou
 TRUSTED = []
 FLOOR = {'quick': 300, 'thorough': 3000}
 BUDGET = {'quick': 100, 'thorough': 1500}
-N = {'quick': 450, 'thorough': 6000}
+N = {'quick': 900, 'thorough': 10000}
 FAMILIES = [('weak', 70)]
 selftest = opcommon.selftest_birds
 
